@@ -86,23 +86,62 @@ func (m *monitors) thaw() {
 	m.freezeLabel = ""
 }
 
-// frozenWrite is called for every store into a frozen object: a violation of write-freedom.
-func (m *monitors) frozenWrite(ex *Exec, o *Obj, site string) {
+// differs: the term "old and new value differ" for a store (true when it cannot be expressed).
+func (ex *Exec) differs(old, nw Value) (res *Term) {
+	defer func() {
+		if r := recover(); r != nil {
+			res = tTrue
+		}
+	}()
+	switch o := old.(type) {
+	case bool, int64, string, *Term:
+		switch nw.(type) {
+		case bool, int64, string, *Term:
+			return mkNot(ex.eqTerm(o, nw, nil))
+		}
+	case Ptr:
+		if n, ok := nw.(Ptr); ok {
+			return mkBool(o.C != n.C)
+		}
+	case Slice:
+		if n, ok := nw.(Slice); ok {
+			same := o.Nil == n.Nil && o.Len == n.Len && o.Cap == n.Cap && o.Off == n.Off && (o.Cap == 0 || &o.Arr[0] == &n.Arr[0])
+			return mkBool(!same)
+		}
+	case *Map:
+		if n, ok := nw.(*Map); ok {
+			return mkBool(o != n)
+		}
+	}
+	return tTrue
+}
+
+// frozenWrite is called for every store into a frozen object. A store that can change the stored value violates
+// "snapshot before = snapshot after" (the witness is a model in which old and new value differ); a store that always
+// rewrites the same value is recorded as a silent write (a data race between concurrent callers, invisible to snapshots).
+func (m *monitors) frozenWrite(ex *Exec, o *Obj, site string, neq *Term) {
 	asite := m.freezeLabel
 	key := asite + "@" + site
 	ex.res.siteReach[asite+".viol"]++
 	if m.writeSeen == nil {
 		m.writeSeen = map[string]bool{}
 	}
-	if m.writeSeen[key] {
+	if m.writeSeen[key] || ex.concreteMode() {
+		if ex.concreteMode() && neq == tTrue {
+			ex.observe("write " + asite)
+		}
+		return
+	}
+	if neq == tFalse {
+		ex.res.silentWrites++
+		return
+	}
+	verdict, model, by := ex.checkProp(neq, true)
+	if verdict != "sat" {
+		ex.res.silentWrites++
 		return
 	}
 	m.writeSeen[key] = true
-	// any model of the path condition is a witness
-	verdict, model, by := ex.checkProp(tTrue, true)
-	if verdict != "sat" && len(ex.pc) > 0 {
-		return
-	}
 	ex.addViolation(Violation{Site: asite, Kind: "write", Msg: fmt.Sprintf("store into operand memory (object allocated at %s) at %s; solver=%s", o.Site, site, by),
 		Model: model, Values: ex.replayValues(model)})
 }
